@@ -842,9 +842,83 @@ func checkNoSharedElementInLoop(p *load.Program, r *kit.Report, rule string) {
 			}
 		})
 	}
+	// the same through a callee that keeps the pointer it is given (wire.MsgGetHeaders.
+	// AddBlockLocatorHash appends its argument): `for _, h := range hs { msg.Add(&h) }` — the
+	// module is built with go 1.18 semantics, one loop variable for all iterations
+	// (what is collected this way in the two packages are locator hashes and inventory vectors: the
+	// content of those lists is what C19 and C06 are about; for other properties a wrong locator is
+	// a refused or useless request, not a violation)
+	retainOwners := map[string]bool{"C19": true, "C06": true}
+	for _, f := range fs {
+		if !retainOwners[r.Property] {
+			break
+		}
+		kit.AllInstrs(f, func(in ssa.Instruction) {
+			c, ok := in.(*ssa.Call)
+			if !ok || c.Call.IsInvoke() {
+				return
+			}
+			callee := kit.StaticCallee(c)
+			if callee == nil || callee.Blocks == nil {
+				return
+			}
+			_, loop := innermostLoop(f, in.Block())
+			if loop == nil {
+				return
+			}
+			for i, a := range c.Call.Args {
+				al, isAlloc := kit.Strip(a).(*ssa.Alloc)
+				if !isAlloc || !al.Heap || loop[al.Block()] || i >= len(callee.Params) || !retainsParam(callee, i) {
+					continue
+				}
+				// rewritten inside the loop?
+				rewritten := false
+				for _, ref := range *al.Referrers() {
+					if st, ok := ref.(*ssa.Store); ok && st.Addr == ssa.Value(al) && loop[st.Block()] {
+						rewritten = true
+					}
+				}
+				n++
+				bad := ""
+				if rewritten {
+					bad = "the address of one variable that the loop overwrites in every iteration is handed to " + kit.ShortID(kit.FuncID(callee)) + ", which keeps the pointer: every collected entry is the same object and ends up holding the last value"
+				}
+				r.Check(bad == "", rule, k.key(kit.ShortID(kit.FuncID(f))+"/retained-argument"), posOf(p, in), "each retained pointer is its own object", bad)
+			}
+		})
+	}
 	if n == 0 {
 		r.OKTrivial(rule, "shared-element/none", "-", "no pointer is appended inside a loop in the call trees of this property's entry points")
 	}
+}
+
+// retainsParam: the function stores its i-th (pointer) parameter into memory that outlives the
+// call — a field, a slice element (the argument array of an append), a map, a channel.
+func retainsParam(f *ssa.Function, i int) bool {
+	prm := f.Params[i]
+	if _, isPtr := prm.Type().Underlying().(*types.Pointer); !isPtr {
+		return false
+	}
+	found := false
+	kit.AllInstrs(f, func(in ssa.Instruction) {
+		switch x := in.(type) {
+		case *ssa.Store:
+			if kit.Strip(x.Val) == ssa.Value(prm) {
+				if _, local := x.Addr.(*ssa.Alloc); !local {
+					found = true
+				}
+			}
+		case *ssa.MapUpdate:
+			if kit.Strip(x.Value) == ssa.Value(prm) {
+				found = true
+			}
+		case *ssa.Send:
+			if kit.Strip(x.X) == ssa.Value(prm) {
+				found = true
+			}
+		}
+	})
+	return found
 }
 
 // checkStampBehindGuards (C06): in GetTxRequests an entry is stamped as requested (LastRequested =
@@ -1035,5 +1109,115 @@ func checkExtendedDispatch(p *load.Program, r *kit.Report, rule string) {
 	})
 	if n == 0 {
 		r.Unknown(rule, "handleExtended/dispatch-only-block-or-tx", "-", "no lookup of the handler table in handleExtended")
+	}
+}
+
+// minusOneSentinel: own functions with an integer result for which some return gives the constant
+// -1 (`not found`) — Branch.Find, Branches.Find (second result), Repository.HashHeight, … Computed
+// from the current tree.
+func minusOneSentinel(p *load.Program) map[*ssa.Function]map[int]bool {
+	out := map[*ssa.Function]map[int]bool{}
+	for _, f := range pkgFuncs(p, R, H) {
+		if f.Blocks == nil {
+			continue
+		}
+		res := f.Signature.Results()
+		for i := 0; i < res.Len(); i++ {
+			bt, ok := res.At(i).Type().Underlying().(*types.Basic)
+			if !ok || bt.Info()&types.IsInteger == 0 {
+				continue
+			}
+			for _, ret := range kit.Returns(f) {
+				if i < len(ret.Results) {
+					if k, isC := kit.ConstInt(ret.Results[i]); isC && k == -1 {
+						if out[f] == nil {
+							out[f] = map[int]bool{}
+						}
+						out[f][i] = true
+					}
+				}
+			}
+		}
+	}
+	return out
+}
+
+// checkSentinelExact: the `not found` answer of a lookup is -1, and 0 is a valid answer (the first
+// header, the first element). A test of such a result that puts 0 on the `not found` side
+// (`<= 0`, `< 1`, `> 0`, `>= 1`) treats the first header as missing: a reorganisation whose fork
+// point is the header at height 0 is not announced, a branch forking there is not found.
+func checkSentinelExact(p *load.Program, r *kit.Report, rule string) {
+	owned := errOwnedFuncs(p, r.Property, errTolExtraTrees)
+	var fs []*ssa.Function
+	for f := range owned {
+		// the announcement of a reorganisation is C07's (its failure is logged and changes no
+		// verdict and no stored state): decided there
+		if kit.FuncID(f) == H+".Repository.sendBranchUpdate" {
+			continue
+		}
+		fs = append(fs, f)
+	}
+	sort.Slice(fs, func(i, j int) bool { return kit.FuncID(fs[i]) < kit.FuncID(fs[j]) })
+	sentinelExactIn(p, r, rule, fs)
+}
+
+func sentinelExactIn(p *load.Program, r *kit.Report, rule string, fs []*ssa.Function) {
+	sent := minusOneSentinel(p)
+	n := 0
+	k := newKeyer()
+	for _, f := range fs {
+		kit.AllInstrs(f, func(in ssa.Instruction) {
+			b, ok := in.(*ssa.BinOp)
+			if !ok {
+				return
+			}
+			switch b.Op {
+			case token.LSS, token.LEQ, token.GTR, token.GEQ, token.EQL, token.NEQ:
+			default:
+				return
+			}
+			x, y, op := b.X, b.Y, b.Op
+			if _, isC := kit.ConstInt(x); isC {
+				x, y = y, x
+				switch op {
+				case token.LSS:
+					op = token.GTR
+				case token.LEQ:
+					op = token.GEQ
+				case token.GTR:
+					op = token.LSS
+				case token.GEQ:
+					op = token.LEQ
+				}
+			}
+			c, isC := kit.ConstInt(y)
+			if !isC {
+				return
+			}
+			// x is the sentinel result of a call
+			var call *ssa.Call
+			idx := 0
+			switch v := kit.Strip(x).(type) {
+			case *ssa.Call:
+				call = v
+			case *ssa.Extract:
+				call, _ = v.Tuple.(*ssa.Call)
+				idx = v.Index
+			}
+			if call == nil {
+				return
+			}
+			callee := kit.StaticCallee(call)
+			if callee == nil || !sent[callee][idx] {
+				return
+			}
+			n++
+			zeroAsMissing := (op == token.LEQ && c == 0) || (op == token.LSS && c == 1) || (op == token.GTR && c == 0) || (op == token.GEQ && c == 1)
+			r.Check(!zeroAsMissing, rule, k.key(kit.ShortID(kit.FuncID(f))+"/"+kit.ShortID(kit.FuncID(callee))), posOf(p, in), "the test separates -1 from the valid answers",
+				"the answer 0 of "+kit.ShortID(kit.FuncID(callee))+" (the first header / element) is treated like its `not found` answer -1")
+		})
+	}
+	if n == 0 {
+		r.OKTrivial(rule, "sentinel-tests/none", "-", "no -1-sentinel result is compared with a constant in the call trees of this property's entry points")
 	}
 }
